@@ -143,7 +143,8 @@ def judge_peak(d):
     """landscape arg-max vs reported shift on planted peaks."""
     out = []
     tmpl, img = c04_shift.make_pair(d)
-    img = (img + d["noise"] * float(np.abs(img).max()) * gen.noise(d["nseed"], img.shape)).astype(np.float32)
+    # noise relative to the contrast (a grey background is not signal)
+    img = (img + d["noise"] * float(np.abs(img - float(d.get("bg", 0.0))).max()) * gen.noise(d["nseed"], img.shape)).astype(np.float32)
     Model = get_model(d["model"])
     ms = tuple(d["max_shifts"])
     u = d["upsample"]
@@ -159,13 +160,17 @@ def judge_peak(d):
         if lds.ndim != 3 or any(s % 2 == 0 for s in lds.shape):
             out.append(viol("C07/landscape-shape", f"{tag}: landscape shape {lds.shape}"))
             return out
-    # (a) integer level: align refines within +-1 px of the arg-max of the integer-sampled landscape inside the window
+    # (a) integer level: align refines within +-1 px of the arg-max of the integer-sampled landscape. The coarse search of
+    # align covers the integers up to ceil(max_shifts) (a peak in the fractional rim of the range is nearest to the integer
+    # just outside of it), so the landscape is taken over that window.
     with warnings.catch_warnings():
         warnings.simplefilter("ignore")
         l1 = np.asarray(model.landscape(img, ms))
+        lc = np.asarray(model.landscape(img, tuple(float(math.ceil(m - 1e-9)) for m in ms)))
     c1 = (np.array(l1.shape) - 1) // 2
-    top = float(l1.max())
-    near = np.argwhere(l1 >= top - 1e-4 * max(1.0, abs(top))) - c1  # all (near-)tied integer maxima
+    cc = (np.array(lc.shape) - 1) // 2
+    top = float(lc.max())
+    near = np.argwhere(lc >= top - 1e-4 * max(1.0, abs(top))) - cc  # all (near-)tied integer maxima
     shift = np.asarray(res.shift, dtype=np.float64)
     dist = np.abs(near - shift).max(axis=1).min()
     if not dist <= 1.0 + 1e-3:
